@@ -409,6 +409,7 @@ func runR_C02(c *Ctx) {
 		ok = reportIssues(c, rs, "R7", "", s.guardIssues(true)) && ok
 		ok = reportIssues(c, rs, "R10", "", writesThroughRoots(s, nil)) && ok
 		ok = reportIssues(c, rs, "R-leaf", "", nilBlindLibCalls(s)) && ok
+		ok = reportIssues(c, rs, "R-op", "", s.operatorLicenseIssues("canEqual")) && ok
 		if ok {
 			c.Rep.pass("R6")
 			c.Rep.pass("R7")
@@ -511,4 +512,49 @@ func keyFromOwnKeys(s *sided, x *ast.IndexExpr) bool {
 		}
 	}
 	return funcHoleWho(s.rs, c.Fun) == "keys" && canon(s.exp(c.Args[0])) == canon(s.exp(x.X))
+}
+
+// operatorLicenseIssues: `==`/`!=` between two mirrored value operands is structural only for types the tabulated
+// predicate accepts: the run must have asked <pred> about exactly that operand's type (or its Underlying()) and got true.
+func (s *sided) operatorLicenseIssues(pred string) []sideIssue {
+	var out []sideIssue
+	run := s.rs.Run
+	anyTrue := false
+	for _, d := range run.Decisions {
+		if strings.HasPrefix(d.Sym, "B:pred:"+pred+"(") && d.Choice == 0 {
+			anyTrue = true
+		}
+	}
+	ast.Inspect(s.body, func(n ast.Node) bool {
+		be, ok := n.(*ast.BinaryExpr)
+		if !ok || (be.Op != token.EQL && be.Op != token.NEQ) || isNilLit(be.X) || isNilLit(be.Y) {
+			return true
+		}
+		sx, sy := s.side(be.X), s.side(be.Y)
+		if !((sx == "A" && sy == "B") || (sx == "B" && sy == "A")) {
+			return true
+		}
+		if lenExprArg(be.X) != nil || lenExprArg(be.Y) != nil {
+			return true
+		}
+		licensed := false
+		if o := s.valOfExpr(be.X); o != nil {
+			for _, cand := range []*VOpaque{o, underlyingVal(o)} {
+				if ans, asked := run.predTrue(pred, cand); asked && ans {
+					licensed = true
+				}
+			}
+			// an operand refined to a basic kind needs no predicate (== is structural for basic values)
+			if kindOfVal(o) == "*types.Basic" {
+				licensed = true
+			}
+		} else if anyTrue {
+			licensed = true // type not resolvable from the residual: some operand type was licensed on this path
+		}
+		if !licensed {
+			out = append(out, sideIssue{be, fmt.Sprintf("compares %s with `%s` although %s was not established for the operands' type on this path: for types holding pointers, slices or maps the operator compares identity (or does not compile) instead of structure", s.rs.src(be.X), be.Op, pred), "operator-unlicensed", ""})
+		}
+		return true
+	})
+	return out
 }
